@@ -2,10 +2,11 @@
 // builders as the compiler uses them: one Compiler per program, many builder
 // calls on it).
 //
-// A history is a sequence of 2..5 builder calls on ONE circuits.Compiler.  The
-// operands of a call are slices of the circuit's input buses or of the result
-// buses of EARLIER calls; the results of every call are circuit outputs
-// (through ID gates, in call order, after the last call).
+// A history is a sequence of 1..5 builder calls on ONE circuits.Compiler.  The
+// operand buses of a call are made of slices of the circuit's input buses, of
+// the result buses of EARLIER calls and of the Compiler's constant wires
+// (operand shapes, see HSrc and shapegen.go); the results of every call are
+// circuit outputs (through ID gates, in call order, after the last call).
 //
 //	c07 hist     every generated history: canonical cc.Gates of the whole
 //	             history and sample evaluations (T4 / T3 op `hgr`: the Lean
@@ -31,17 +32,153 @@ import (
 	"verifharness/hxlib"
 )
 
-// HSrc is an operand: wires [Lo, Lo+Len) of bus K.  Buses 0..len(InW)-1 are
-// the circuit's input buses, bus len(InW)+j is the result of call j (the
-// concatenation of its result buses for builders with two results).
-// Len == 0: no such operand.
-type HSrc struct{ K, Lo, Len int }
+// HSrc is an operand bus.  A plain operand is wires [Lo, Lo+Len) of bus K.
+// Buses 0..len(InW)-1 are the circuit's input buses, bus len(InW)+j is the
+// result of call j (the concatenation of its result buses for builders with
+// two results).  Len == 0: no such operand.
+//
+// OPERAND SHAPES.  The compiler hands the builders buses that are mixtures of
+// value wires and the Compiler's CONSTANT wires (ssa.Program.Circuit: every
+// constant is wired from cc.ZeroWire()/cc.OneWire(), every zero-extended,
+// shifted or sliced value is padded with cc.ZeroWire(), a sign-extended value
+// repeats its top wire).  A shaped operand is the concatenation (least
+// significant first) of the pieces Cat; a piece is a plain bus slice, Len
+// copies of cc.ZeroWire() (K == KZero) or Len copies of cc.OneWire()
+// (K == KOne).  The constant wires are requested from the Compiler when the
+// operand is made, piece by piece, operands in the order x, y, w, immediately
+// before the builder is called.
+type HSrc struct {
+	K, Lo, Len int
+	Cat        []HSrc
+}
+
+const (
+	KZero = -1
+	KOne  = -2
+)
+
+func (s HSrc) pieceString() string {
+	switch s.K {
+	case KZero:
+		return fmt.Sprintf("z%d", s.Len)
+	case KOne:
+		return fmt.Sprintf("o%d", s.Len)
+	}
+	return fmt.Sprintf("b%d.%d.%d", s.K, s.Lo, s.Len)
+}
 
 func (s HSrc) String() string {
 	if s.Len == 0 {
 		return "-"
 	}
-	return fmt.Sprintf("b%d.%d.%d", s.K, s.Lo, s.Len)
+	if s.Cat == nil {
+		return s.pieceString()
+	}
+	var p []string
+	for _, c := range s.Cat {
+		p = append(p, c.pieceString())
+	}
+	return strings.Join(p, "+")
+}
+
+// pieces lists the pieces of an operand.
+func (s HSrc) pieces() []HSrc {
+	if s.Len == 0 {
+		return nil
+	}
+	if s.Cat == nil {
+		return []HSrc{s}
+	}
+	return s.Cat
+}
+
+// fedByResult: some piece is (part of) the result of an earlier call.
+func (s HSrc) fedByResult(nIn int) bool {
+	for _, p := range s.pieces() {
+		if p.K >= nIn {
+			return true
+		}
+	}
+	return false
+}
+
+// shaped: the operand holds constant wires, a repeated wire or several pieces.
+func (s HSrc) shaped() bool { return s.Cat != nil || s.K < 0 }
+
+// hasConst: the operand holds constant wires.
+func (s HSrc) hasConst() bool {
+	for _, p := range s.pieces() {
+		if p.K < 0 {
+			return true
+		}
+	}
+	return false
+}
+
+func zeroP(n int) HSrc { return HSrc{K: KZero, Len: n} }
+func oneP(n int) HSrc  { return HSrc{K: KOne, Len: n} }
+
+// catP concatenates pieces / operands (least significant first); empty pieces
+// are dropped, adjacent constant pieces of one kind are merged.
+func catP(parts ...HSrc) HSrc {
+	var ps []HSrc
+	n := 0
+	for _, p := range parts {
+		for _, q := range p.pieces() {
+			if q.Len == 0 {
+				continue
+			}
+			if len(ps) > 0 && q.K < 0 && ps[len(ps)-1].K == q.K {
+				ps[len(ps)-1].Len += q.Len
+			} else {
+				ps = append(ps, HSrc{K: q.K, Lo: q.Lo, Len: q.Len})
+			}
+			n += q.Len
+		}
+	}
+	if len(ps) == 1 && ps[0].K >= 0 {
+		return ps[0]
+	}
+	return HSrc{K: 0, Lo: 0, Len: n, Cat: ps}
+}
+
+// constP: the n-bit constant v wired from the constant wires.
+func constP(n int, v *big.Int) HSrc {
+	var ps []HSrc
+	for i := 0; i < n; i++ {
+		if v.Bit(i) == 1 {
+			ps = append(ps, oneP(1))
+		} else {
+			ps = append(ps, zeroP(1))
+		}
+	}
+	return catP(ps...)
+}
+
+// sub: wires [lo, lo+n) of the operand.
+func (s HSrc) sub(lo, n int) HSrc {
+	var ps []HSrc
+	for _, p := range s.pieces() {
+		if n == 0 {
+			break
+		}
+		if lo >= p.Len {
+			lo -= p.Len
+			continue
+		}
+		k := p.Len - lo
+		if k > n {
+			k = n
+		}
+		q := HSrc{K: p.K, Len: k}
+		if p.K >= 0 {
+			q.Lo = p.Lo + lo
+		}
+		ps = append(ps, q)
+		lo = 0
+		n -= k
+	}
+	return catP(ps...)
 }
 
 // HStep is one builder call.
@@ -120,6 +257,34 @@ func parseSrc(s string) (HSrc, error) {
 	if s == "-" {
 		return HSrc{}, nil
 	}
+	if strings.Contains(s, "+") || strings.HasPrefix(s, "z") || strings.HasPrefix(s, "o") {
+		var ps []HSrc
+		n := 0
+		for _, f := range strings.Split(s, "+") {
+			var p HSrc
+			if strings.HasPrefix(f, "z") || strings.HasPrefix(f, "o") {
+				k, err := strconv.Atoi(f[1:])
+				if err != nil || k < 1 {
+					return HSrc{}, fmt.Errorf("bad operand piece %q", f)
+				}
+				p = HSrc{K: KZero, Len: k}
+				if f[0] == 'o' {
+					p.K = KOne
+				}
+			} else {
+				var err error
+				if p, err = parseSrc(f); err != nil {
+					return HSrc{}, err
+				}
+				if p.Len < 1 {
+					return HSrc{}, fmt.Errorf("bad operand piece %q", f)
+				}
+			}
+			ps = append(ps, p)
+			n += p.Len
+		}
+		return HSrc{Len: n, Cat: ps}, nil
+	}
 	if !strings.HasPrefix(s, "b") {
 		return HSrc{}, fmt.Errorf("bad operand %q", s)
 	}
@@ -135,7 +300,7 @@ func parseSrc(s string) (HSrc, error) {
 		}
 		v[i] = n
 	}
-	return HSrc{v[0], v[1], v[2]}, nil
+	return HSrc{K: v[0], Lo: v[1], Len: v[2]}, nil
 }
 
 // parseHistory parses the four fields of History.String.
@@ -195,11 +360,18 @@ func parseHistory(f []string) (*History, error) {
 func (h *History) check() error {
 	for i, st := range h.Steps {
 		for _, s := range []HSrc{st.X, st.Y, st.W} {
-			if s.Len == 0 {
-				continue
+			tot := 0
+			for _, p := range s.pieces() {
+				tot += p.Len
+				if p.K < 0 && (p.K < KOne || p.Len < 1) {
+					return fmt.Errorf("call %d: operand %s: bad constant piece", i, s)
+				}
+				if p.K >= 0 && (p.K >= len(h.InW)+i || p.Lo < 0 || p.Len < 1 || p.Lo+p.Len > h.busWidth(p.K)) {
+					return fmt.Errorf("call %d: operand %s out of range", i, s)
+				}
 			}
-			if s.K < 0 || s.K >= len(h.InW)+i || s.Lo < 0 || s.Len < 0 || s.Lo+s.Len > h.busWidth(s.K) {
-				return fmt.Errorf("call %d: operand %s out of range", i, s)
+			if tot != s.Len {
+				return fmt.Errorf("call %d: operand %s: width", i, s)
 			}
 		}
 		if st.X.Len == 0 || st.Y.Len == 0 || (st.B.NW > 0) != (st.W.Len > 0) {
@@ -267,13 +439,29 @@ func BuildHist(h *History) (res *HBuilt) {
 		cc.ZeroWire()
 		cc.OneWire()
 	}
-	// operands are exact-capacity copies: no two calls share a backing array
+	// operands are exact-capacity copies: no two calls share a backing array;
+	// constant pieces are the Compiler's own constant wires, requested here
 	operand := func(s HSrc) []*circuits.Wire {
 		if s.Len == 0 {
 			return nil
 		}
-		r := make([]*circuits.Wire, s.Len)
-		copy(r, buses[s.K][s.Lo:s.Lo+s.Len])
+		r := make([]*circuits.Wire, 0, s.Len)
+		for _, p := range s.pieces() {
+			switch p.K {
+			case KZero:
+				z := cc.ZeroWire()
+				for i := 0; i < p.Len; i++ {
+					r = append(r, z)
+				}
+			case KOne:
+				o := cc.OneWire()
+				for i := 0; i < p.Len; i++ {
+					r = append(r, o)
+				}
+			default:
+				r = append(r, buses[p.K][p.Lo:p.Lo+p.Len]...)
+			}
+		}
 		return r
 	}
 	var all [][]*circuits.Wire
@@ -284,7 +472,10 @@ func BuildHist(h *History) (res *HBuilt) {
 		for j, n := range outs {
 			zs[j] = calloc.Wires(types.Size(n))
 		}
-		err = st.B.Build(cc, c, operand(st.X), operand(st.Y), operand(st.W), zs)
+		xw := operand(st.X)
+		yw := operand(st.Y)
+		ww := operand(st.W)
+		err = st.B.Build(cc, c, xw, yw, ww, zs)
 		if err != nil {
 			res.Err = fmt.Sprintf("call %d (%s): %v", i, st.B.Name, err)
 			return
@@ -331,10 +522,22 @@ func (h *History) busVals(hb *HBuilt, in hvec, outs []*big.Int) []*big.Int {
 }
 
 func srcVal(vals []*big.Int, s HSrc) *big.Int {
-	if s.Len == 0 {
-		return new(big.Int)
+	v := new(big.Int)
+	sh := 0
+	for _, p := range s.pieces() {
+		var pv *big.Int
+		switch p.K {
+		case KZero:
+			pv = new(big.Int)
+		case KOne:
+			pv = mask(p.Len)
+		default:
+			pv = bitsSlice(vals[p.K], p.Lo, p.Len)
+		}
+		v.Or(v, new(big.Int).Lsh(pv, uint(sh)))
+		sh += p.Len
 	}
-	return bitsSlice(vals[s.K], s.Lo, s.Len)
+	return v
 }
 
 // judge checks every call of the history on one vector; returns the index of
@@ -512,8 +715,18 @@ func runHist(j histJob) *jobResult {
 		if i > 0 {
 			jr.count("hist_pair_"+h.Steps[i-1].B.Name+">"+st.B.Name+"_"+h.TargetName(), 1)
 		}
-		if st.X.K >= len(h.InW) || st.Y.K >= len(h.InW) || (st.W.Len > 0 && st.W.K >= len(h.InW)) {
+		if st.X.fedByResult(len(h.InW)) || st.Y.fedByResult(len(h.InW)) || st.W.fedByResult(len(h.InW)) {
 			jr.count("hist_calls_fed_by_earlier_results", 1)
+		}
+		if st.X.shaped() || st.Y.shaped() || st.W.shaped() {
+			jr.count("hist_calls_with_shaped_operands", 1)
+		}
+		if st.X.hasConst() || st.Y.hasConst() || st.W.hasConst() {
+			jr.count("hist_calls_with_constant_wires", 1)
+			jr.count("hist_const_call_"+st.B.Name+"_"+h.TargetName(), 1)
+		}
+		if st.X.String() == st.Y.String() {
+			jr.count("hist_calls_x_op_x", 1)
 		}
 	}
 	if hb.Panic != "" || hb.Err != "" {
@@ -740,7 +953,7 @@ func runReplay(o *hxlib.Out, path string) {
 	case "history":
 		ok = runHOne(o, str("history")+" "+str("inputs"))
 	case "program":
-		ok = runPOne(o, str("target"), str("src"), str("inputs"))
+		ok = runPOne(o, str("target"), str("src"), str("inputs"), str("spec"))
 	default:
 		// single-call case of the oracle
 		rp := str("replay")
